@@ -179,7 +179,8 @@ fn run_case(c: &Case) -> CaseOut {
                             let mut class = "other position";
                             for (ti, t) in toks.iter().enumerate() {
                                 let cu = *cu as usize;
-                                if cu > t.start + t.ws_len && cu <= t.end && matches!(t.kind, pasfmt_core::prelude::RawTokenType::TextLiteral(pasfmt_core::prelude::TextLiteralKind::MultiLine)) {
+                                // inside the literal, at its end, or at its first character: the cursor belongs to the literal
+                                if cu >= t.start + t.ws_len && cu <= t.end && matches!(t.kind, pasfmt_core::prelude::RawTokenType::TextLiteral(pasfmt_core::prelude::TextLiteralKind::MultiLine)) {
                                     class = "inside a multi-line string literal";
                                     break;
                                 }
@@ -217,6 +218,7 @@ fn run_case(c: &Case) -> CaseOut {
                 }
             }
             for o in &c.oracles {
+                let ns0 = stages::LOG_NO_SOLUTION.load(std::sync::atomic::Ordering::Relaxed);
                 let f = match o.as_str() {
                     "c04" => oracles::c04_work(&c.input, &c.cfg),
                     "c02" if c.well_formed => oracles::c02_rescan(&c.input, &c.cfg),
@@ -244,6 +246,10 @@ fn run_case(c: &Case) -> CaseOut {
                     _ => vec![],
                 };
                 bump(&mut stats, &format!("oracle_runs:{}", o), 1);
+                // a layout failure on a case in which the wrapper gave up on a line ("No solution found": the line keeps
+                // the whitespace it had) is tagged, so that the finding about such lines can be told from others
+                let ns1 = stages::LOG_NO_SOLUTION.load(std::sync::atomic::Ordering::Relaxed);
+                let f: Vec<String> = if ns1 > ns0 { f.into_iter().map(|x| format!("{x} [wrapper found no solution for a line]")).collect() } else { f };
                 oracle_failures.extend(f);
             }
             bump(&mut stats, "tokens", snap.raw.len());
